@@ -13,13 +13,14 @@ import (
 	"verif/internal/fakesrv"
 	"verif/internal/memfs"
 	"verif/internal/quiesce"
+	"verif/internal/rawpeer"
 	"verif/internal/wire"
 )
 
 func init() {
 	ev.Register(&ev.Spec{
 		ID: "C13", Level: "exploration",
-		Rule:    "server: grid msize x Tread/Treaddir count x file/directory size (both sides of the limit) x offsets against a real server over memfs, the reply-stream monitor checking every size field against the announced msize and the data against the file; client: ReadAt/WriteAt/Readdir/GetXattr of sizes around and far above the limit against a fake server that announced less than requested, the request-stream monitor checking request sizes and requested reply sizes. Non-trivial: count or object size within 16 bytes of, or above, the limit; distinct by (msize, kind, count class, size class).",
+		Rule:    "server: grid msize x Tread/Treaddir count x file/directory size (both sides of the limit) x offsets against a real server over memfs, the reply-stream monitor checking every size field against the announced msize and the data against the file; first-use race: on a connection used before it negotiates, the first Tread and the first Tversion leave in one write (either order, hundreds of connections) and every later Rread is held to the announced msize - and still fills it; client: ReadAt/WriteAt/Readdir/GetXattr of sizes around and far above the limit against a fake server that announced less than requested, the request-stream monitor checking request sizes and requested reply sizes. Non-trivial: count or object size within 16 bytes of, or above, the limit; distinct by (msize, kind, count class, size class).",
 		Assume:  []string{"reference codec size accounting", "net.Pipe transport", "an Rlerror in place of shortened data is accepted unless it is the EFAULT of a recovered handler panic"},
 		Shards:  shards(8, 16),
 		Timeout: timeout(5*time.Minute, 40*time.Minute),
@@ -49,6 +50,7 @@ func cntClass(cnt, ms uint64) string {
 
 func runC13(c *ev.Ctx) {
 	c13Server(c)
+	c13FirstReadVsVersion(c)
 	c13Client(c)
 }
 
@@ -460,4 +462,85 @@ func lastNewfid(fs *fakesrv.Server) uint64 {
 		}
 	}
 	return 0
+}
+
+// c13FirstReadVsVersion: a connection that is used before it negotiates (the
+// server serves it with its default msize) and whose first Tread and first
+// Tversion arrive in one write, in either order, so that both handlers run at
+// once. Whatever the two do to the connection's read buffers, every reply after
+// the Rversion is held to the msize that Rversion announced.
+func c13FirstReadVsVersion(c *ev.Ctx) {
+	rounds := c.Sz(400, 8000)
+	for i := 0; i < rounds; i++ {
+		if !c.Mine(i) {
+			continue
+		}
+		ms := []uint64{8192, 4096, 65536, 512}[i%4]
+		c.Begin(fmt.Sprintf("C13 first Tread vs first Tversion round %d msize %d", i, ms))
+		fs := memfs.New()
+		n := fs.MkPath("/b", p9.ModeRegular|0644, "")
+		n.Synth, n.SynthSz = true, 1<<20
+		srv := p9.NewServer(fs)
+		p := rawpeer.New(srv, altTransport())
+		s := &sess{P: p, Srv: srv}
+		if s.P.RPC(wire.Tattach, u(0), u(wire.NOFID), "", "", u(wire.NOUID)).Errno() != 0 || s.walk(0, 1, "b").Errno() != 0 || s.open(1, 0).Errno() != 0 {
+			c.Inconclusive("C13: un-negotiated setup failed")
+			p.Close()
+			continue
+		}
+		rd := wire.Encode(wire.Tread, 50, u(1), u(0), u(16))
+		tv := wire.Encode(wire.Tversion, wire.NOTAG, ms, v7)
+		p.Expect(rd)
+		p.Expect(tv)
+		from := p.NReplies()
+		if i%2 == 0 {
+			p.SendRaw(append(append([]byte{}, rd...), tv...))
+		} else {
+			p.SendRaw(append(append([]byte{}, tv...), rd...))
+		}
+		det := map[string]any{"msize": ms, "version_first": i%2 == 1}
+		_, ok1, o1, d1 := p.WaitTag(50, from)
+		rv, ok2, o2, d2 := p.WaitTag(wire.NOTAG, from)
+		if !ok1 || !ok2 {
+			if !ok1 {
+				hang(c, o1, d1, "C13:srv:first-read-vs-version:request-unanswered", det)
+			} else {
+				hang(c, o2, d2, "C13:srv:first-read-vs-version:request-unanswered", det)
+			}
+			p.Close()
+			continue
+		}
+		if rv.Msg.Type != wire.Rversion || rv.Msg.F[0].(uint64) != ms {
+			c.Inconclusive(fmt.Sprintf("C13: Tversion msize=%d answered %v", ms, rv.Msg))
+			p.Close()
+			continue
+		}
+		bad := false
+		for _, cnt := range []uint64{ms - 11, ms, 65536, 1 << 20} {
+			res := s.read(1, 3, cnt)
+			if !res.OK {
+				hang(c, res.Out, res.Dump, "C13:srv:first-read-vs-version:Tread-unanswered", det)
+				bad = true
+				break
+			}
+			if uint64(len(res.Raw)) > ms {
+				det["count"], det["frame"] = cnt, len(res.Raw)
+				c.Violation("C13:srv:Rread-exceeds-msize:after-first-Tread-raced-first-Tversion", det)
+				bad = true
+				break
+			}
+			if res.Msg.Type == wire.Rread {
+				if d := res.Msg.F[0].([]byte); uint64(len(d)) != minU64(cnt, ms-11) {
+					det["count"], det["got"] = cnt, len(d)
+					c.Violation("C13:srv:Rread-shorter-than-msize-allows:after-first-Tread-raced-first-Tversion", det)
+					bad = true
+					break
+				}
+			}
+		}
+		_ = bad
+		c.Case(fmt.Sprintf("first-read-vs-version:%d:%v", ms, i%2 == 1), true)
+		c.Count("first_read_vs_version_rounds", 1)
+		p.Close()
+	}
 }
